@@ -764,6 +764,7 @@ def run(ctx):
     # 3b. the same histories on a real format class (MVF v4 from telstate + chunk store), thorough tier
     if ctx.tier == 'thorough':
         real_format_histories(ctx)
+        c02x.run_real_format(ctx, ctx.scale(100, 100))
     # 4. cross-check of the extraction inside Coq (thorough tier)
     if ctx.tier == 'thorough':
         from vh import core
